@@ -87,6 +87,7 @@ func cmdRun(in, out string) {
 		for _, st := range sc.Steps {
 			runStep(e, st)
 		}
+		e.opFlushRelease()
 		if e.bg.Load() {
 			skipped++ // a background flush interfered: not the scripted behaviour, do not judge it
 		} else {
@@ -107,6 +108,17 @@ func cmdRun(in, out string) {
 }
 
 func runStep(e *env, st step) {
+	if e.race != nil {
+		switch st.Op {
+		case "Put", "Delete", "GC":
+			if st.Crash > 0 {
+				e.opFlushRelease()
+			}
+		case "Mark", "Epoch", "InhumeCnr", "FlushRelease":
+		default:
+			e.opFlushRelease()
+		}
+	}
 	switch st.Op {
 	case "Put":
 		e.opPut(st.A, st.Crash)
@@ -128,6 +140,10 @@ func runStep(e *env, st step) {
 		e.opRestart()
 	case "SetMode":
 		e.opSetMode(st.M, st.Fault)
+	case "FlushHold":
+		e.opFlushHold(st.A)
+	case "FlushRelease":
+		e.opFlushRelease()
 	case "Settle":
 		e.opSettle(st.K)
 	default:
